@@ -123,18 +123,18 @@ CHECKS["C01"] = {
         {"name": "pipeline", "pkg": "internal/state", "pkgname": "state", "entry": "VerifC01Pipeline",
          "files": ["zz_verif_c01.go", "zz_verif_fixture.go"], "extra_overlay": {"internal/response/zz_verif_decode.go": "internal/response/zz_verif_decode.go"},
          "gen_stubs": [TX_STUB],
-         "params": {"quick": grid(fam=[0], n=[1], k=[2]) + grid(fam=[1], n=[1], k=[3]) + grid(fam=[1, 2], n=[2], k=[2]) + grid(fam=[3], n=[3], k=[3]), "thorough": grid(fam=[0], n=[1, 2], k=[2, 3]) + grid(fam=[1, 2], n=[1, 2], k=[4]) + grid(fam=[3], n=[3, 4], k=[4])},
+         "params": {"quick": grid(fam=[0], n=[1], k=[2]) + grid(fam=[1], n=[1], k=[3]) + grid(fam=[1, 2], n=[2], k=[2]) + grid(fam=[3], n=[3], k=[3]), "thorough": grid(fam=[0], n=[1], k=[2]) + grid(fam=[1], n=[1], k=[3, 4, 5]) + grid(fam=[1], n=[2], k=[2, 3]) + grid(fam=[2], n=[2], k=[2]) + grid(fam=[2], n=[1], k=[3]) + grid(fam=[3], n=[3], k=[3, 4])},
          "cover": []},
         {"name": "commands", "pkg": "internal/state", "pkgname": "state", "entry": "VerifC01Commands",
          "files": ["zz_verif_c01.go", "zz_verif_c01b.go", "zz_verif_c17.go", "zz_verif_c20.go", "zz_verif_fixture.go", "zz_verif_world.go"],
          "extra_overlay": {"internal/response/zz_verif_decode.go": "internal/response/zz_verif_decode.go"},
          "with": ["verifdb"], "gen_stubs": [TX_STUB],
-         "params": {"quick": grid(n=[1], k=[2, 3]) + grid(n=[2], k=[2]), "thorough": grid(n=[1], k=[4]) + grid(n=[2], k=[3])},
+         "params": {"quick": grid(n=[1], k=[2, 3]) + grid(n=[2], k=[2]), "thorough": grid(n=[1], k=[2, 3, 4]) + grid(n=[2], k=[2, 3])},
          "cover": ["own-store", "own-fetch", "own-expunge"]},
         {"name": "session", "pkg": "internal/session", "pkgname": "session", "entry": "VerifC01Session", "files": ["zz_verif_c18.go", "zz_verif_c18b.go", "zz_verif_c01.go"],
          "with": ["state_export", "backend_export", "verifdb"],
          "extra_overlay": {"internal/response/zz_verif_decode.go": "internal/response/zz_verif_decode.go"},
-         "params": {"quick": grid(k=[2, 3]), "thorough": grid(k=[4])},
+         "params": {"quick": grid(k=[2, 3]), "thorough": grid(k=[2, 3])},
          "cover": ["own-store", "own-fetch", "own-plain", "update-delivered"]},
         {"name": "idlebulk", "pkg": "internal/session", "pkgname": "session", "entry": "VerifC01IdleBulk", "files": ["zz_verif_c01idle.go"],
          "params": {"quick": [{}], "thorough": [{}]}, "cover": ["idle-bulk"]},
@@ -150,17 +150,17 @@ CHECKS["C05"] = {
         {"name": "pipeline", "pkg": "internal/state", "pkgname": "state", "entry": "VerifC01Pipeline",
          "files": ["zz_verif_c01.go", "zz_verif_fixture.go"], "extra_overlay": {"internal/response/zz_verif_decode.go": "internal/response/zz_verif_decode.go"},
          "gen_stubs": [TX_STUB],
-         "params": {"quick": grid(fam=[1], n=[1], k=[3, 4]) + grid(fam=[1], n=[2], k=[3]), "thorough": grid(fam=[1], n=[1, 2], k=[4, 5])},
+         "params": {"quick": grid(fam=[1], n=[1], k=[3, 4]) + grid(fam=[1], n=[2], k=[3]), "thorough": grid(fam=[1], n=[1], k=[3, 4, 5]) + grid(fam=[1], n=[2], k=[3, 4])},
          "cover": ["expunge-held-back", "expunge-queued", "exists-queued"]},
         {"name": "merge", "pkg": "internal/state", "pkgname": "state", "entry": "VerifC01Pipeline",
          "files": ["zz_verif_c01.go", "zz_verif_fixture.go"], "extra_overlay": {"internal/response/zz_verif_decode.go": "internal/response/zz_verif_decode.go"},
          "gen_stubs": [TX_STUB],
-         "params": {"quick": grid(fam=[3], n=[3], k=[3]), "thorough": grid(fam=[3], n=[3, 4], k=[4])},
+         "params": {"quick": grid(fam=[3], n=[3], k=[3]), "thorough": grid(fam=[3], n=[3], k=[3, 4]) + grid(fam=[3], n=[4], k=[3])},
          "cover": ["expunge-queued", "fetch-queued"]},
         {"name": "session", "pkg": "internal/session", "pkgname": "session", "entry": "VerifC01Session", "files": ["zz_verif_c18.go", "zz_verif_c18b.go", "zz_verif_c01.go"],
          "with": ["state_export", "backend_export", "verifdb"],
          "extra_overlay": {"internal/response/zz_verif_decode.go": "internal/response/zz_verif_decode.go"},
-         "params": {"quick": grid(k=[3]), "thorough": grid(k=[4])},
+         "params": {"quick": grid(k=[3]), "thorough": grid(k=[3])},
          "cover": ["held-back", "own-search"]},
     ],
     "stubs": CHECKS["C01"]["stubs"],
@@ -214,7 +214,7 @@ CHECKS["C02"] = {
     "harnesses": [
         {"name": "converge", "pkg": "internal/state", "pkgname": "state", "entry": "VerifC02Converge",
          "files": ["zz_verif_c02.go", "zz_verif_fixture.go", "zz_verif_world.go"], "with": ["verifdb"], "gen_stubs": [TX_STUB],
-         "params": {"quick": grid(fam=[1], n=[1], k=[4, 5]) + grid(fam=[2], n=[1], k=[3, 4]) + grid(fam=[3], n=[1], k=[4]), "thorough": grid(fam=[1, 2, 3], n=[1, 2], k=[5]) + grid(fam=[0], n=[1], k=[5]) + grid(fam=[1], n=[1], k=[6])},
+         "params": {"quick": grid(fam=[1], n=[1], k=[4, 5]) + grid(fam=[2], n=[1], k=[3, 4]) + grid(fam=[3], n=[1], k=[4]), "thorough": grid(fam=[1], n=[1], k=[4, 5, 6]) + grid(fam=[2], n=[1], k=[3, 4, 5]) + grid(fam=[3], n=[1], k=[4, 5]) + grid(fam=[1], n=[2], k=[4]) + grid(fam=[0], n=[1], k=[4])},
          "cover": ["update-delivered"]},
         {"name": "connector", "pkg": "internal/backend", "pkgname": "backend", "entry": "VerifC02Connector", "files": ["zz_verif_backend.go", "zz_verif_c02.go"],
          "with": ["verifdb", "state_export"],
@@ -224,7 +224,7 @@ CHECKS["C02"] = {
         {"name": "session", "pkg": "internal/session", "pkgname": "session", "entry": "VerifC01Session", "files": ["zz_verif_c18.go", "zz_verif_c18b.go", "zz_verif_c01.go"],
          "with": ["state_export", "backend_export", "verifdb"],
          "extra_overlay": {"internal/response/zz_verif_decode.go": "internal/response/zz_verif_decode.go"},
-         "params": {"quick": grid(k=[3]), "thorough": grid(k=[4])},
+         "params": {"quick": grid(k=[3]), "thorough": grid(k=[3])},
          "cover": ["own-store", "update-delivered"]},
     ],
     "stubs": ["internal/verifdb relational model", "state.Connector stub (no remote updates)", "state.UserInterface stub: FIFO, loss-free per-state update queue (async.QueuedChannel is goroutine based: outside)"],
@@ -289,7 +289,7 @@ CHECKS["C15"] = {
         {"name": "search", "pkg": "internal/state", "pkgname": "state", "entry": "VerifC15Search",
          "files": ["zz_verif_c15.go", "zz_verif_c17.go"] + STATE_FILES, "with": ["verifdb"], "gen_stubs": [TX_STUB],
          "params": {"quick": grid(n=[1, 2], depth=[0], sets=[0], comp=[0]) + grid(n=[2, 3], depth=[0], sets=[1], comp=[0]) + grid(n=[1], depth=[1], sets=[0], comp=[1]) + grid(n=[1, 2], depth=[2], nested=[1], comp=[2]) + grid(n=[1], depth=[0], sets=[0], comp=[0], recent=[1]),
-                    "thorough": grid(n=[1, 2, 3], depth=[0], sets=[0], comp=[0]) + grid(n=[1, 2], depth=[1], sets=[0], comp=[2]) + grid(n=[2, 3, 4], depth=[0], sets=[1], comp=[0])},
+                    "thorough": grid(n=[1, 2, 3], depth=[0], sets=[0], comp=[0]) + grid(n=[1], depth=[1], sets=[0], comp=[2]) + grid(n=[2, 3, 4], depth=[0], sets=[1], comp=[0]) + grid(n=[1, 2, 3], depth=[2], nested=[1], comp=[2]) + grid(n=[1, 2], depth=[0], sets=[0], comp=[0], recent=[1])},
          "cover": ["search-ok"]},
         {"name": "text", "pkg": "internal/state", "pkgname": "state", "entry": "VerifC15Text",
          "files": ["zz_verif_c15.go", "zz_verif_c17.go"] + STATE_FILES, "with": ["verifdb"], "gen_stubs": [TX_STUB],
